@@ -188,10 +188,10 @@ for n, ln, tier in [("k_rekey_chain1", 1, "quick"), ("k_rekey_chain2", 2, "thoro
       covers=["right was disabled before the rekey", "hybridized right"],
       desc="rekey of a held right: exactly one secret prepended, same flavour, SAME activation flag; older secrets untouched",
       bounds=KL + "1 right, chain of %d, activation flag and flavour symbolic, RNG symbolic" % ln, **_k)
-H("k_mpk_publishes_activated_fronts", "keys_model", ["C06", "C04", "C11", "C17"], "quick", unwind=4, covers=["one right disabled"],
+H("k_mpk_publishes_activated_fronts", "keys_model", ["C06", "C04", "C11", "C17"], "thorough", unwind=4, covers=["one right disabled"], seedable=False,
   desc="mpk(): publishes h*front.sk with the front's flavour iff the FRONT is activated; tracers published in order",
   bounds=KL + "2 rights (chains of 2 and 1), activation flags and flavour symbolic", **dict(_k, timeout=1500))
-H("k_mpk_front_single_right", "keys_model", ["C06", "C04"], "quick", unwind=4, covers=["front disabled, older secret activated"],
+H("k_mpk_front_single_right", "keys_model", ["C06", "C04", "C11"], "quick", unwind=4, covers=["front disabled, older secret activated"],
   desc="mpk(): one right, chain of 2: key published iff the FRONT secret is activated, and it is the front's image",
   bounds=KL + "1 right, chain of 2, front flag symbolic", **_k)
 for n, tier in [("k_rekey_unknown_last", "quick"), ("k_rekey_unknown_first", "thorough")]:
